@@ -159,7 +159,10 @@ def build_job(job):
     if rc != 0:
         return 'goto-cc failed for harness %s:\n%s' % (job.harness, se[-3000:])
     for fn in job.remove_bodies:
+        # replace the body by "return an arbitrary value" (environment stub; listed in the evidence)
         rc, so, se = sh(['goto-instrument', '--remove-function-body', fn, gb, gb], timeout=120)
+        if rc == 0:
+            rc, so, se = sh(['goto-instrument', '--generate-function-body', '^' + fn + '$', '--generate-function-body-options', 'nondet-return', gb, gb], timeout=120)
         if rc != 0:
             return 'goto-instrument failed: ' + se[-2000:]
     job.gb = gb
